@@ -529,6 +529,9 @@ func corrC07(r *Run) {
 		"Shift-JIS, EUC-JP incl. 3-octet characters, ISO-2022-JP, EUC-KR, UCS-2 incl. supplementary planes): wide characters at every offset -3..+3 " +
 		"around the part boundary, U+FFFD and other characters with 2/3/4-octet UTF-8 forms at every offset -3..+3 around every part boundary, lengths 0 .. beyond 254 parts, references {0,1,254,255,256,65535}+random; Splitter.Split with small limits. " +
 		"non-trivial = distinct non-empty (coding, reference, text) / (coding, limit, text)"
+	waitTables := tablePerturbTest(r, "widths")
+	defer waitTables()
+	codecHistoryTests(r, "C07", r.N(40, 600), r.N(6, 40))
 	c := &c07{r: r, seen: map[string]bool{}}
 	cds := c07Codings()
 	refs := []uint16{0, 1, 254, 255, 256, 65535}
